@@ -243,6 +243,8 @@ Record sig : Type := {
   (** validators run by save and load *)
   groups_ok : T_groups -> bool;                              (* validate_groups (C15) *)
   info_ok : finfo T_irest T_gbody T_dict -> bool;            (* FontInfo::validate (C13) *)
+  (** [str::to_lowercase] (an arbitrary function here; nothing about it is assumed) *)
+  lower : str -> str;
   (** glyph names: the name inside the glif is overridden by the key of contents.plist *)
   glyph_name : T_glyph -> str;
   set_name : str -> T_glyph -> T_glyph;
@@ -477,8 +479,8 @@ Definition load_layer (t : tree) (e : str * str) : result lay lerr :=
           match dec (P_contents S) cc with
           | None => Err (LParse 7)
           | Some cl =>
-              (* every glif file name may be used once (seen set, in glyph-name order) *)
-              if negb (nodupb (map snd cl)) then Err LDuplicateGlyphFile else
+              (* every glif file name may be used once, compared lower-cased (seen set, in glyph-name order) *)
+              if negb (nodupb (map (fun e => lower S (snd e)) cl)) then Err LDuplicateGlyphFile else
               bind (mapM (load_glyph d) cl) (fun gl =>
               bind (load_opt (P_li S) (ld_info d) 8) (fun li =>
               Ok {| l_name := fst e; l_dir := snd e;
@@ -497,17 +499,18 @@ Definition is_default_dir (l : lay) : bool := str_eqb (l_dir l) GLYPHS.
 (** [LayerContents::load]: without layercontents.plist (legal before format 3) one layer
     [public.default] in [glyphs]; the default layer is the first one whose directory is
     [glyphs] and is moved to the front *)
-(** the pre-filter loop of [LayerContents::load], per entry in file order: name already seen,
-    directory already seen, [public.default] in a directory other than [glyphs].  (Directories are
+(** the pre-filter loop of [LayerContents::load], per entry in file order: name already seen
+    (exactly), directory already seen (lower-cased, like the taken-set), [public.default] in a
+    directory other than [glyphs].  (Directories are
     single path components in this model; the [plain_name] test is C09's.) *)
 Fixpoint lc_precheck (seen_n seen_d : list str) (lc : list (str * str)) : option lerr :=
   match lc with
   | [] => None
   | e :: r =>
       if memb (fst e) seen_n then Some LDuplicateLayerName
-      else if memb (snd e) seen_d then Some LDuplicateLayerDirectory
+      else if memb (lower S (snd e)) seen_d then Some LDuplicateLayerDirectory
       else if str_eqb (fst e) DEFAULT_LAYER_NAME && negb (str_eqb (snd e) GLYPHS) then Some LReservedLayerName
-      else lc_precheck (fst e :: seen_n) (snd e :: seen_d) r
+      else lc_precheck (fst e :: seen_n) (lower S (snd e) :: seen_d) r
   end.
 
 Definition load_layers (t : tree) (v : N) : result (list lay) lerr :=
@@ -592,16 +595,16 @@ Definition glyph_entry_ok (e : str * str * T_glyph S) : Prop :=
 Definition layer_ok (l : lay) : Prop :=
   wf_dict (l_lib l) /\ (forall k, l_color l = Some k -> wf_color S k) /\
   wf (P_contents S) (contents_of l) /\
-  NoDup (map (fun e => snd (fst e)) (l_glyphs l)) /\
+  NoDup (map (fun e => lower S (snd (fst e))) (l_glyphs l)) /\    (* distinct ignoring case *)
   Forall glyph_entry_ok (l_glyphs l).
 
 (** the first layer is the default layer (directory [glyphs]), no other layer uses that
-    directory, directories are pairwise distinct *)
+    directory, directories are pairwise distinct ignoring case *)
 Definition layers_ok (ls : list lay) : Prop :=
   match ls with
   | [] => False
   | d :: r => l_dir d = GLYPHS /\ Forall (fun l => l_dir l <> GLYPHS) r
-  end /\ NoDup (map l_dir ls) /\ Forall layer_ok ls /\ wf (P_lc S) (lc_of ls) /\
+  end /\ NoDup (map (fun l => lower S (l_dir l)) ls) /\ Forall layer_ok ls /\ wf (P_lc S) (lc_of ls) /\
   (* layer names are unique and only the default layer may be called public.default *)
   NoDup (map l_name ls) /\ Forall (fun l => l_name l = DEFAULT_LAYER_NAME -> l_dir l = GLYPHS) ls.
 
